@@ -21,6 +21,8 @@ close).  Bytes that arrive in a *later* call are a new `processCallW`: the code 
 `buf_filled` at the start of every call, nothing is carried over (that is the code's behaviour,
 not a modelling shortcut, and it is compared on the real server).
 
+Round 2 added: dead too-long guard, over-long requests, split requests, substitution vs. fread chunks (sections 9-11).
+
 Not proved here (stated in docs/C20.md): bounds on the time `rfbWriteExact` may block when the peer
 does not read (per write, C04); behaviour of the RFB layer after a proxy hand-over.
 -/
@@ -472,6 +474,138 @@ theorem body_identity_without_dollar (env : Env) (cfg : Cfg) (params content : B
     rw [List.map_congr_left (fun c hc' => substChunk_id _ c (this c hc')), List.map_id', hfl]
   · rfl
 
+/-! ## 9. over-long requests (round 2) -/
+
+/-- **the `buf_filled > sizeof (buf)` guard at the head of the read loop is dead code**: after
+every `read` the fill level plus the NUL is inside `buf` (`w.hi = buf_filled + 1`), so the guard's
+condition is false at every loop head, for every segmentation of every request.  (The coverage
+listing shows its body as never executed; no input can execute it.) -/
+theorem request_too_long_guard_unreachable (acc : Bytes) (chunks : List Bytes) (e : SockEnd) :
+    ∀ w ∈ (accumulate acc chunks e).2, ¬ (w.hi - 1 > sizeofBuf) := by
+  intro w hw
+  have := (accumulate_bounds chunks acc e w hw).2
+  omega
+
+/-- what really happens to a request that fills the window (`sizeof buf - 1` bytes) without a
+blank line, however it is segmented and whether or not more bytes follow: `read` is asked for 0
+bytes, returns 0, and the connection is closed without a response ("premature close" path). -/
+theorem overlong_request_closes (fixed : Bool) (cfg : Cfg) (chunks : List Bytes) (e : SockEnd)
+    (hd : cfg.dir.length ≤ dirMax) (hlen : chunks.flatten.length ≥ sizeofBuf - readSlack)
+    (hnt : hasTerminator (cstr (chunks.flatten.take (sizeofBuf - readSlack))) = false) :
+    (processCallW fixed cfg chunks e).1 = .close .bufferFull := by
+  rw [processCallW_fst]
+  have : ¬ cfg.dir.length > dirMax := by omega
+  simp only [this, ↓reduceIte]
+  have h1 := single_overlong chunks.flatten e (by rw [room_nil]; exact hlen) (by rw [room_nil]; exact hnt)
+  have h2 := accumulate_flatten chunks [] e
+  rw [h1] at h2
+  rw [AccEquiv_closed_right h2]
+
+/-! ## 10. a request split across two bursts (round 2) -/
+
+/-- **split_request_unanswered**: the read loop starts every call with `buf_filled = 0`
+(`processCallW` has no carried state: that *is* the code's behaviour, compared on the real server
+by the two-burst cases).  So if a request arrives in two bursts with an EAGAIN in between, neither
+of which contains a blank line on its own, both calls end `pending`: no response, no close, nothing
+opened — even when the concatenation is a valid GET (example below).  The connection stays open
+until the peer sends a complete request in one burst, closes, or a new client connects.
+C20 is not violated by this (no file outside the directory, no overrun, the RFB service is not
+stalled: the call returns at once); it is a functional defect of the HTTP service, documented. -/
+theorem split_request_unanswered (fixed : Bool) (cfg : Cfg) (b1 b2 : Bytes)
+    (hd : cfg.dir.length ≤ dirMax) (n1 : b1 ≠ []) (n2 : b2 ≠ [])
+    (l1 : b1.length < sizeofBuf - readSlack) (l2 : b2.length < sizeofBuf - readSlack)
+    (t1 : hasTerminator (cstr b1) = false) (t2 : hasTerminator (cstr b2) = false) :
+    (processCallW fixed cfg [b1] .eagain).1 = .pending ∧ (processCallW fixed cfg [b2] .eagain).1 = .pending ∧
+    opened (processCallW fixed cfg [b1] .eagain).1 = none ∧ opened (processCallW fixed cfg [b2] .eagain).1 = none := by
+  have hd' : ¬ cfg.dir.length > dirMax := by omega
+  have p1 : (processCallW fixed cfg [b1] .eagain).1 = .pending := by
+    rw [processCallW_fst]; simp only [hd', ↓reduceIte]
+    rw [single_pending b1 n1 (by rw [room_nil]; exact l1) t1]
+  have p2 : (processCallW fixed cfg [b2] .eagain).1 = .pending := by
+    rw [processCallW_fst]; simp only [hd', ↓reduceIte]
+    rw [single_pending b2 n2 (by rw [room_nil]; exact l2) t2]
+  exact ⟨p1, p2, by rw [p1]; rfl, by rw [p2]; rfl⟩
+
+/-! ## 11. substitution and `fread` chunks (round 2) -/
+
+/-- a `.vnc` file of at most one `fread` chunk (`BUF_SIZE - 1` bytes) is substituted as a whole -/
+theorem body_single_chunk (env : Env) (cfg : Cfg) (params content : Bytes) (hne : content ≠ [])
+    (hlen : content.length ≤ BUF_SIZE - freadSlack) :
+    body env cfg params true content = substChunk (varValues env cfg params) content := by
+  unfold body
+  simp only [↓reduceIte]
+  cases hc : content.length with
+  | zero => exact absurd (List.eq_nil_of_length_eq_zero hc) hne
+  | succ k =>
+    have hb : content.isEmpty = false := by simpa using hne
+    have ht : content.take (BUF_SIZE - freadSlack) = content := List.take_of_length_le hlen
+    have hdr : content.drop (BUF_SIZE - freadSlack) = [] := List.drop_of_length_le hlen
+    simp only [chunksOf, hb, Bool.false_eq_true, ↓reduceIte, ht, hdr]
+    have hnil : chunksOf (BUF_SIZE - freadSlack) k [] = [] := by cases k <;> simp [chunksOf]
+    simp [hnil]
+
+/-- **substitution is NOT independent of the `fread` chunking** (the source says so itself: "This
+won't quite work properly if the .vnc file is longer than BUF_SIZE").  Counterexample for every
+value list: a file of `BUF_SIZE - 1 - 3` plain bytes followed by `$WIDTH` puts `$WI` at the end of
+the first chunk and `DTH` into the second; the chunked expansion sends the file unchanged, the
+expansion of the same bytes in one piece replaces the variable.  (Tie: `ex32768.vnc`, `big.vnc`,
+`straddle2.vnc` in the sandbox are compared byte-exactly with the real server.) -/
+theorem body_substitution_chunk_dependent (env : Env) (cfg : Cfg) (params : Bytes) (k : Nat)
+    (hk : k + 3 = BUF_SIZE - freadSlack) :
+    let content := List.replicate k (97 : UInt8) ++ [36, 87, 73, 68, 84, 72]
+    body env cfg params true content = content ∧
+    substChunk (varValues env cfg params) content = List.replicate k 97 ++ decimal env.width := by
+  intro content
+  have hrep36 : (36 : UInt8) ∉ List.replicate k (97 : UInt8) := by
+    intro h; have := List.eq_of_mem_replicate h; revert this; decide
+  have hrep0 : ∀ x ∈ List.replicate k (97 : UInt8), x ≠ 0 := by
+    intro x h; rw [List.eq_of_mem_replicate h]; decide
+  have hlenr : (List.replicate k (97 : UInt8)).length = k := List.length_replicate
+  have nn3 : ∀ x ∈ ([36, 87, 73] : Bytes), x ≠ 0 := by decide
+  have nn6 : ∀ x ∈ ([36, 87, 73, 68, 84, 72] : Bytes), x ≠ 0 := by decide
+  constructor
+  · unfold body
+    simp only [↓reduceIte]
+    have hcl : content.length = (k + 3) + 3 := by simp [content]
+    have hb : content.isEmpty = false := by simp [content]
+    have htake : content.take (BUF_SIZE - freadSlack) = List.replicate k 97 ++ [36, 87, 73] := by
+      rw [← hk]
+      have := take_append_length (List.replicate k (97 : UInt8)) [36, 87, 73, 68, 84, 72] 3
+      rw [hlenr] at this
+      exact this
+    have hdrop : content.drop (BUF_SIZE - freadSlack) = [68, 84, 72] := by
+      rw [← hk]
+      have := drop_append_length (List.replicate k (97 : UInt8)) [36, 87, 73, 68, 84, 72] 3
+      rw [hlenr] at this
+      exact this
+    rw [hcl]
+    simp only [chunksOf, hb, Bool.false_eq_true, ↓reduceIte, htake, hdrop, List.isEmpty_cons,
+      List.map_cons]
+    have hd3 : List.drop (BUF_SIZE - freadSlack) ([68, 84, 72] : Bytes) = [] := by decide
+    simp only [hd3, List.isEmpty_nil, ↓reduceIte, List.map_nil]
+    have ht3 : List.take (BUF_SIZE - freadSlack) ([68, 84, 72] : Bytes) = [68, 84, 72] := by decide
+    rw [ht3]
+    have c1 : substChunk (varValues env cfg params) (List.replicate k 97 ++ [36, 87, 73]) =
+        List.replicate k 97 ++ [36, 87, 73] := by
+      rw [substChunk_no_nul _ _ (by
+        intro x hx; rcases List.mem_append.1 hx with h | h
+        · exact hrep0 x h
+        · exact nn3 x h)]
+      rw [substGo_plain_prefix _ _ _ hrep36]
+      simp [substGo, matchVar, matchVar.go, substVars, varValues, List.isPrefixOf]
+    have c2 : substChunk (varValues env cfg params) [68, 84, 72] = [68, 84, 72] :=
+      substChunk_id _ _ (by decide)
+    rw [c1, c2]
+    simp [content]
+  · rw [substChunk_no_nul _ _ (by
+      intro x hx; rcases List.mem_append.1 hx with h | h
+      · exact hrep0 x h
+      · exact nn6 x h)]
+    rw [substGo_plain_prefix _ _ _ hrep36]
+    simp [substGo, matchVar, matchVar.go, substVars, varValues, List.isPrefixOf]
+
+example : ∃ k, k + 3 = BUF_SIZE - freadSlack := ⟨32764, by decide⟩
+
 /-! ## non-vacuity -/
 
 def cfgA : Cfg := { dir := [47, 119], proxy := false, port := 5900 }
@@ -495,6 +629,9 @@ example : (processCallW true cfgA [reqT] .eagain).1 = .error 404 := by decide
 -- pending / early close / proxy
 example : (processCallW true cfgA [reqA.take 7] .eagain).1 = .pending := by decide
 example : (processCallW true cfgA [reqA.take 7] .eof).1 = .close .eof := by decide
+-- split_request_unanswered: both halves of a request that is served in one burst stay unanswered
+example : (processCallW true cfgA [reqA.take 21] .eagain).1 = .pending ∧
+    (processCallW true cfgA [reqA.drop 21] .eagain).1 = .pending := by decide
 example : (processCallW true ⟨[47, 119], true, 5900⟩
     [[67,79,78,78,69,67,84,32,104,58,53,57,48,48,10,10]] .eagain).1 = .proxyOk := by decide
 example : (processCallW true cfgA [[67,79,78,78,69,67,84,32,104,58,53,57,48,48,10,10]] .eagain).1 =
